@@ -1323,12 +1323,20 @@ def pretty_frozenset(value, ctx):
     return pretty_call_alt(ctx, constructor)
 
 
+def _uncommented_key(value):
+    # Sort a commented key, or a tuple / frozenset key with
+    # commented elements, by the key itself.
+    value = unwrap_comments(value)[0]
+    if type(value) in (tuple, frozenset):
+        return type(value)(_uncommented_key(el) for el in value)
+    return value
+
+
 class _AlwaysSortable(object):
     __slots__ = ('value', )
 
     def __init__(self, value):
-        # Sort a commented key by the key itself.
-        self.value = unwrap_comments(value)[0]
+        self.value = _uncommented_key(value)
 
     def sortable_value(self):
         # Keys that cannot be compared are ordered by the name of their
